@@ -3,6 +3,7 @@ import LdkModel.Model.TlvFrame
 import LdkModel.Generated.TlvSchemas
 import LdkModel.Generated.SerPrims
 import LdkModel.Model.ChanForget
+import LdkModel.Generated.ChanSideVecs
 /-! C12 model driver (frame level: version prefix + TLV stream rules over the generated (type, kind) lists).  ops:
     frame <Block> <hex>      `frameDecode` of the TLV stream part of an object (no length prefix): `ok` / `err <DecodeError>`
                              — the verdict predicted from the (type, kind) list alone (payloads opaque)
@@ -18,6 +19,7 @@ import LdkModel.Model.ChanForget
     hzd_rd <len> <hex>       `SerPrims.hzdDecode len` (TRANSLATED HighZeroBytesDroppedBigSize reader, whole input = its reader)
     forget_disk <chan>       `ChanForget.readChan (writeChan c)` over the TRANSLATED forget table (Generated/ChanForget.lean): `<chan>` / `err`
     forget_mem <chan>        `ChanForget.forget c` (remove_uncommitted_htlcs_and_mark_paused): `<chan>`
+    sidevec <tlv> <elems>    `ChanSideVecs.roundTrip` of the TRANSLATED row of that TLV over kind=value,… (value `-` = None): `ok <elems>` / `err` / `no-row`
     forget_retx <chan>       `recvAll (readChan (writeChan c)) (retransmit c)`: `ok` (and the state is restored) / `refused` / `differs`
                              <chan> = <outbound 0|1> <next_holder_htlc_id> <next_counterparty_htlc_id> <fee rate:State|-> <holding-cell fee n|->
                                       <inbound id:State,…|-> <outbound id:State,…|-> <holding-cell entries> -/
@@ -84,6 +86,19 @@ def forgetOp (kind : String) (ws : List String) : String :=
           | none => "refused"
           | some c'' => if c'' == { c with outb := c.outb.map (fun h => (h.1, Gen.mOutReset h.2)) } then "ok" else "differs"
 
+open Ldk.ChanSideVecs in
+def sidevecOp (tlv elems : String) : String :=
+  match Ldk.ChanSideVecs.Gen.sideRows.find? (·.tlv == nat! tlv) with
+  | none => "no-row"
+  | some r =>
+    let l : List Elem := if elems == "-" then [] else (elems.splitOn ",").map fun t =>
+      match t.splitOn "=" with
+      | [k, v] => (k, if v == "-" then none else some (nat! v))
+      | _ => (t, none)
+    match roundTrip Ldk.ChanSideVecs.Gen.readAs r l with
+    | none => "err"
+    | some out => "ok " ++ (if out.isEmpty then "-" else ",".intercalate (out.map fun e => e.1 ++ "=" ++ (match e.2 with | some v => toString v | none => "-")))
+
 def findBlock (n : String) : Option FrameSchema := generatedTlvSchemas.find? (·.name == n)
 
 def c12 : Drv where
@@ -136,6 +151,7 @@ def c12 : Drv where
       match SerPrims.hzdDecode (nat! len) (unhex h) with
       | .ok (n, rest) => ((), s!"ok {n} {rest.length}")
       | .error e => ((), "err " ++ e.name)
+    | ["sidevec", tlv, elems] => ((), sidevecOp tlv elems)
     | "forget_disk" :: rest => ((), forgetOp "forget_disk" rest)
     | "forget_mem" :: rest => ((), forgetOp "forget_mem" rest)
     | "forget_retx" :: rest => ((), forgetOp "forget_retx" rest)
